@@ -273,6 +273,19 @@ fn c06_containers(ctx: &mut Ctx, recs: &[Rec], ser: Ser, case_no: &mut u64, full
         let g = gz_members(&[&text], level);
         let c = format!("gz1-l{}", level);
         c06_read(ctx, recs, ser, &c, &g, *case_no, base_argv(&c));
+        // history at one path: the same records in reverse order (same serialised size) written to the SAME path and
+        // read straight afterwards - what the reader returns must depend on the file as it is now
+        if recs.len() >= 2 {
+            let rev: Vec<Rec> = recs.iter().rev().cloned().collect();
+            if rev != recs {
+                let (t2, _) = serialise(&rev, ser);
+                let g2 = gz_members(&[&t2], level);
+                let mut a = base_argv(&c);
+                a[1] = "C06hist".to_string();
+                c06_read(ctx, &rev, ser, &c, &g2, *case_no, a);
+                ctx.rep.count("files.same_path_history", 1);
+            }
+        }
     }
     // an empty member at the end (every bgzip file ends with an empty EOF block) and at the beginning
     for cont in ["gz-emptylast", "gz-emptyfirst", "gz-emptylast-l0"] {
@@ -1249,6 +1262,17 @@ pub fn replay(ctx: &mut Ctx, args: &[String]) {
         }
     };
     match args[0].as_str() {
+        "C06hist" => {
+            let recs = list_from_code(&args[1]);
+            let ser = Ser::parse(&args[2]);
+            let (text, bounds) = serialise(&recs, ser);
+            let bytes = container_bytes(&text, &bounds, &args[3]);
+            c06_read(ctx, &recs, ser, &args[3], &bytes, 0, vec![]);
+            let rev: Vec<Rec> = recs.iter().rev().cloned().collect();
+            let (t2, b2) = serialise(&rev, ser);
+            let bytes2 = container_bytes(&t2, &b2, &args[3]);
+            c06_read(ctx, &rev, ser, &args[3], &bytes2, 0, vec![]);
+        }
         "C06" => {
             let recs = list_from_code(&args[1]);
             let ser = Ser::parse(&args[2]);
